@@ -58,7 +58,8 @@ def ensure_deps() -> None:
                 r = subprocess.run(cmd, capture_output=True, text=True, timeout=600)
                 if r.returncode != 0:
                     raise Inconclusive("pip install of icontract/deal failed: " + r.stderr[-400:])
-                open(marker, "w").write("ok\n")
+                with open(marker, "w") as f:
+                    f.write("ok\n")
     if DEPS not in sys.path:
         sys.path.insert(0, DEPS)
 
@@ -95,7 +96,9 @@ def child_env() -> dict:
 def load_known() -> dict:
     known = {}
     if os.path.exists(KNOWN_FILE):
-        for line in open(KNOWN_FILE, encoding="utf-8"):
+        with open(KNOWN_FILE, encoding="utf-8") as f:
+            lines = f.read().splitlines()
+        for line in lines:
             line = line.strip()
             if not line.startswith("known:"):
                 continue
@@ -327,11 +330,13 @@ def run_parent(pid: str, tier: str, workers: int | None = None) -> int:
             log.close()
             if os.path.exists(out):
                 try:
-                    parts.append(json.load(open(out)))
+                    with open(out) as f:
+                        parts.append(json.load(f))
                 except Exception:  # noqa: BLE001
                     reasons.append(f"worker {i}: unreadable result")
             else:
-                tail = open(os.path.join(wd, f"w{i}.log")).read()[-600:]
+                with open(os.path.join(wd, f"w{i}.log")) as f:
+                    tail = f.read()[-600:]
                 reasons.append(f"worker {i} died without result (rc={p.returncode}): {tail}")
         merged = _merge(parts)
         shutil.rmtree(wd, ignore_errors=True)
@@ -426,7 +431,8 @@ def run_replay(pid: str, path: str) -> int:
     ensure_deps()
     bootstrap_repo()
     mod = importlib.import_module(f"vmon.props.{pid}")
-    v = json.load(open(path))
+    with open(path) as f:
+        v = json.load(f)
     ctx = Ctx(pid, "quick", int(v.get("seed", 0)), 0, 1, replaying=True)
     if not hasattr(mod, "replay"):
         print("no replay function for", pid)
